@@ -77,7 +77,9 @@ def wrapper_crps(tier):
              ([1.0, nan, 3.0], [[1., 2.], [2., 3.], [0., 1.]], [0, 2]),
              ([nan, 2.0, nan, 4.0], [[1.], [2.], [5.], [6.]], [1, 3]),
              ([1.0, 2.0, 3.0], [[1., 2.], [nan, nan], [0., 1.]], [0, 2]),
-             ([1.0, 2.0], [[nan, 2.], [2., 3.]], [0, 1])]
+             ([1.0, 2.0], [[nan, 2.], [2., 3.]], [0, 1]),
+             # as many members as forecasts: rows stay forecasts
+             ([1.0, 2.0], [[1., 5.], [2., 7.]], [0, 1]), ([3.0, 1.0, 2.0], [[1., 5., 9.], [2., 7., 8.], [0., 4., 6.]], [0, 1, 2])]
     for obs, ens, keep in cases:
         rec = Recorder()
         with patched_module(M, 'c_hydrodiy_stat', rec):
